@@ -191,6 +191,7 @@ class Decimal(SimpleModel):
                                              Decimal.Attributes.total_digits
                 and cls.Attributes.fraction_digits ==
                                              Decimal.Attributes.fraction_digits
+                and cls.Attributes.pattern == Decimal.Attributes.pattern
             )
 
     @staticmethod
